@@ -213,6 +213,11 @@ def _unpack_stack(scope, only_errors=True):
     while LAST_CHILD_SCOPE in scope:
         child = scope[LAST_CHILD_SCOPE]
         branches = scope[CHILD_ERRORS]
+        if NO_PYFRAME in scope and CUR_ERROR in scope:
+            # (a lazily raised error that a later step recovered from stays
+            # recorded here, nothing forgives it: keep what took part in this error)
+            branches = [b for b in branches if b is child
+                        or b.maps[0].get(CUR_ERROR) is scope[CUR_ERROR]]
         if len(branches) == 1 and branches[0] is child:
             branches = []  # if there's only one branch, count it as linear
         stack.append([scope, scope[Spec], scope[T], scope.get(CUR_ERROR), branches])
